@@ -335,7 +335,7 @@ def _solver(world, extra=()):
     return s
 
 
-def decode_world(world, sc, m, epochs=(1, 2, 3, 4)):
+def decode_world(world, sc, m, epochs=(0, 1, 2, 3, 4)):
     """Concrete file-system / command state of the given epochs from a model."""
     out = {}
     for e in epochs:
